@@ -345,6 +345,11 @@ func genExtCase(t *rapid.T, kinds []string, maxN, maxRaw int, profiles bool) ext
 			name := fmt.Sprintf("profile-%d", i)
 			p := core.Profile{File: fmt.Sprintf("profiles/p%d.yaml", i), Name: name, PlainScalars: rapid.Bool().Draw(t, fmt.Sprintf("pplain%d", i))}
 			p.Extensions = genProfileExts(t, fmt.Sprintf("pext%d-", i), c.W.Ents[i].Extensions, kinds, rapid.IntRange(0, 3).Draw(t, fmt.Sprintf("undef%d", i)) == 0)
+			if i > 0 && c.W.Ents[0].Profile != "" && rapid.IntRange(0, 3).Draw(t, "share-profile") == 0 {
+				// both certificates of the run use the first one's profile (merging for one must not leak into the other)
+				c.W.Ents[i].Profile = c.W.Ents[0].Profile
+				continue
+			}
 			c.W.Profs = append(c.W.Profs, p)
 			c.W.Ents[i].Profile = name
 			if rapid.IntRange(0, 3).Draw(t, fmt.Sprintf("decoy%d", i)) == 0 {
